@@ -12,7 +12,7 @@ TNext == /\ k <= Len(Tr) /\ k' = k + 1 /\ UNCHANGED c
             IF r.e = "reset" THEN TRUE
             ELSE /\ r.e = "ac"
                  /\ LET m == Search(r.keys, r.text, r.start, r.len) IN
-                    /\ AsRec(r.all) = m
+                    /\ ToSet(AsRec(r.all)) = ToSet(m) /\ Len(r.all) = Len(m)          \* every occurrence, once (the order of the report is the implementation's business)
                     /\ AsRec(r.sel) = Filter(m)
 TraceAccepted == TLCGet("stats").diameter = Len(Tr) + 1
 =============================================================================
